@@ -79,7 +79,9 @@ COSTED = {
     "scrypt": (1, 4, 1), "django_pbkdf2_sha256": (1, 60, 1), "bcrypt_sha256": (4, 5, 1),
 }
 FIXED = ["md5_crypt", "apr_md5_crypt", "des_crypt", "ldap_salted_sha1", "ldap_sha1", "hex_md5", "django_salted_sha1", "mysql41", "nthash",
-         "ldap_md5", "ldap_salted_md5", "hex_sha1", "ldap_md5_crypt"]
+         "ldap_md5", "ldap_salted_md5", "hex_sha1", "ldap_md5_crypt", "hex_md4", "lmhash"]
+# formats that claim each other's strings (32 hex digits): attribution goes to the first one configured
+HEX32 = ("hex_md5", "nthash", "hex_md4", "lmhash")
 C08_PALETTE = ["des_crypt", "bsdi_crypt", "md5_crypt", "apr_md5_crypt", "sha1_crypt", "sha256_crypt", "sha512_crypt", "bcrypt", "bcrypt_sha256",
                "pbkdf2_sha1", "pbkdf2_sha256", "pbkdf2_sha512", "ldap_salted_sha1", "ldap_sha1", "hex_md5", "phpass", "scrypt",
                "django_pbkdf2_sha256", "django_salted_sha1", "mysql41", "nthash"]
@@ -102,11 +104,37 @@ def _triple(rng, scheme, beyond=True):
 
 
 def gen_policy(rng, n_schemes=None, with_cats=True, stringly=False, disabled=None):
+    """a well-formed policy; schemes that shadow each other (32-hex family) may be configured together, but a scheme that is
+    shadowed by an earlier one is never anybody's default (hashes it made would be attributed to the other one)"""
+    for _ in range(8):
+        cfg = _gen_policy(rng, n_schemes, with_cats, stringly, disabled)
+        fam = [s for s in cfg["schemes"] if s in HEX32]
+        if len(fam) < 2:
+            return cfg
+        m = PolicyModel(cfg, {s: SchemeFacts(s, None) for s in cfg["schemes"]})
+        try:
+            defaults = {m.default(c) for c in (None, "admin", "staff")}
+        except Exception:
+            continue
+        if not (defaults & set(fam[1:])):
+            return cfg
+    cfg = _gen_policy(rng, n_schemes, with_cats, stringly, disabled)
+    fam = [s for s in cfg["schemes"] if s in HEX32]
+    if len(fam) > 1:
+        return _gen_policy(rng, 1, with_cats, stringly, disabled)
+    return cfg
+
+
+def _gen_policy(rng, n_schemes=None, with_cats=True, stringly=False, disabled=None):
     names = sorted(COSTED) + FIXED
+    if disabled:
+        # mysql41 hashes begin with '*', which is also a disabled-account marker: inherently ambiguous next to unix_disabled
+        names = [n for n in names if n != "mysql41"]
     n = n_schemes or rng.choice([1, 2, 2, 3, 3, 4, 5])
     schemes = rng.sample(names, n)
-    if "hex_md5" in schemes and "nthash" in schemes:
-        schemes.remove("nthash")
+    if rng.random() < 0.15 and n >= 2:
+        schemes[:2] = rng.sample(HEX32, 2)  # make "first configured scheme that claims it" matter
+        schemes = list(dict.fromkeys(schemes))
     cfg = {"schemes": list(schemes)}
     merged = {}  # (cat, scheme) -> {min, default, max}
     for s in schemes:
@@ -121,7 +149,7 @@ def gen_policy(rng, n_schemes=None, with_cats=True, stringly=False, disabled=Non
             elif r < 0.75:
                 o["max_rounds"] = b
             if rng.random() < 0.2:
-                o["vary_rounds"] = rng.choice([1, 2, 0.1, 0.25, "10%", "3"])
+                o["vary_rounds"] = rng.choice([1, 2, 0.1, 0.25, 0.125, 0.005, "10%", "12.5%", "3"])
             merged[(None, s)] = dict(o)
             for k, v in o.items():
                 cfg[f"{s}__{k}"] = str(v) if stringly and rng.random() < 0.3 and not isinstance(v, str) else v
@@ -253,7 +281,7 @@ def _delta(rng, cfg):
             d["default"] = schemes[0]
     elif r < 0.8 and costed:
         s = rng.choice(costed)
-        d[f"{s}__vary_rounds"] = rng.choice([0, 1, 0.1, "10%"])
+        d[f"{s}__vary_rounds"] = rng.choice([0, 1, 0.1, 0.375, "10%"])
     elif costed:
         s = rng.choice(costed)
         c = rng.choice(CATS)
@@ -326,22 +354,8 @@ INVALID_KINDS = ["unknown_scheme", "unknown_option", "forbidden_salt", "default_
 
 def _gen_config_program(rng, tier):
     cfg = gen_policy(rng, stringly=True)
-    faulty = rng.random() < 0.45
-    if faulty:
-        # custom (unregistered) hashers can only wrap real classes
-        cfg["schemes"] = [s for s in cfg["schemes"] if s != "ldap_md5_crypt"] or ["md5_crypt"]
-        for k in list(cfg):
-            if "ldap_md5_crypt" in k.split("__"):
-                del cfg[k]
-        for k in ("deprecated", "default", "admin__context__deprecated", "staff__context__deprecated", "admin__context__default",
-                  "staff__context__default"):
-            v = cfg.get(k)
-            if isinstance(v, list):
-                cfg[k] = [x for x in v if x != "ldap_md5_crypt"]
-                if not cfg[k]:
-                    del cfg[k]
-            elif v == "ldap_md5_crypt":
-                del cfg[k]
+    # custom (unregistered) hashers can only wrap real classes, not PrefixWrapper objects
+    faulty = rng.random() < 0.45 and "ldap_md5_crypt" not in cfg["schemes"]
     ops = []
     for _ in range(rng.randint(3, 9 if tier == "quick" else 14)):
         k = rng.choices(["export_import", "empty_update", "valid_update", "failed_using", "failed_item", "failed_file", "copy"],
@@ -492,7 +506,7 @@ class _PolicyRun:
             else:
                 # bsdi_crypt documents that it only generates odd costs (even ones weaken DES): an even configured cost
                 # may come out one higher -- as long as that stays inside the window, which the next checks decide
-                same = c == want or (d == "bsdi_crypt" and c == (want | 1) and (hi is None or c <= hi or want == hi))
+                same = c == want or (d == "bsdi_crypt" and want % 2 == 0 and abs(c - want) == 1 and (hi is None or c <= hi))
                 ctx.check(same, "C04", "new-hash-cost-differs-from-policy",
                           lambda: f"{where}: {d} category {cat!r}: new hash {h!r} has cost {c}, policy says {want} (window [{lo}, {hi}])",
                           scheme=d)
@@ -509,6 +523,7 @@ class _PolicyRun:
         r = _call(self.cc.hash, op["pw"], category=op["cat"])
         if r[0] == "exc":
             self.ctx.fail("C04", "hash-raises", f"hash({op['pw']!r}, category={op['cat']!r}) raised {r[1]}: {r[2]}", exc=r[1])
+        self.ctx.log("register", op["user"], op["cat"], r[1])
         self.judge_fresh(r[1], op["pw"], op["cat"], "register")
         self.table[op["user"]] = (r[1], op["pw"])
 
@@ -564,6 +579,7 @@ class _PolicyRun:
             return
         want, why = self.model.needs_update(h, cat)
         r = _call(self.cc.needs_update, h, category=cat)
+        self.ctx.log("needs_update", op["user"], cat, r[:2])
         c = cost_of(h, s)
         lo, hi = self.model.window(s, cat)
         self.seen.add((s, _cost_class(c, lo, hi), why))
@@ -590,10 +606,15 @@ class _PolicyRun:
         if s is None or m.window_empty(s, cat):
             return None
         attempt = pw if pw_right else "wrong-" + pw
+        # whether the password is right is the attributed scheme's verdict (a hash made by a scheme that an earlier
+        # one shadows is, by the attribution rule, read as the earlier one's)
+        vr = _call(self.facts[s].handler.verify, attempt, h)
+        pw_right = vr == ("ok", True)
         r = _call(self.cc.verify_and_update, attempt, h, category=cat)
         if r[0] == "exc":
             ctx.fail("C04", "verify-and-update-raises", f"verify_and_update({attempt!r}, {h!r}, category={cat!r}) raised {r[1]}: {r[2]}", exc=r[1])
         ok, new = r[1]
+        ctx.log("login", user, cat, ok, new)
         if not pw_right:
             ctx.check((ok, new) == (False, None), "C04", "wrong-password-outcome", f"{where}: wrong password -> {(ok, new)}", scheme=s)
             return None
@@ -877,6 +898,7 @@ class _StorageRun:
                 ctx.probe("respelling_accepted")
             elif not changed and name == "handler.verify":
                 ctx.check(verified, "C08", "intact-record-rejected", f"{d!r} / {pw!r} -> {v!r}", **attrs)
+        ctx.log("judge", d, sorted((k, str(v)) for k, v in outcomes.items()))
         pc = "head" if d[:4] != rec["hash"][:4] else "tail" if d[-4:] != rec["hash"][-4:] else "middle"
         self.seen.add((S, kind, pc, str(outcomes["handler.verify"])))
         ctx.nontrivial = True
